@@ -188,3 +188,7 @@ func init() {
 func init() {
 	claim("C19", "B1", "B2", "B3", "B4")
 }
+
+func init() {
+	claim("C11", "E1", "E2", "E3", "E4", "E5", "E6", "N4", "N6", "B3")
+}
